@@ -28,6 +28,8 @@ var c18Queries = []struct {
 	{"grouped", `sum by (container) (count_over_time({container=~"c.*"}[3s]))`, false},
 	{"grouped-all", `sum(count_over_time({container=~"c.*"}[3s]))`, false},
 	{"grouped-collide", `sum by (a_b) (count_over_time({container=~"c.*"}[3s]))`, false},
+	{"grouped-empty", `sum by (tier) (count_over_time({container=~"c.*"}[3s]))`, false},
+	{"grouped-empty-max", `max by (tier, a_b) (count_over_time({container=~"c.*"}[6s]))`, false},
 	{"topk", `topk(2, sum by (container) (count_over_time({container=~"c.*"}[6s])))`, false},
 	{"binary", `count_over_time({container=~"c.*"}[3s]) + count_over_time({container=~"c.*"}[5s])`, false},
 	{"binary-lit", `sum by (container) (count_over_time({container=~"c.*"}[3s])) / 2`, false},
@@ -39,7 +41,7 @@ func evalRaw(fd *FakeDocker, query string, p EvalP) (lokiapi.QueryResponseData, 
 }
 
 func runC18(r *vk.Run) {
-	r.SetRule("inventories of 1..5 containers (distinct timestamps; one container carries Docker label keys a.b / a-b / a/b that sanitise to the same name with different values) x 13 queries (log, pipeline, range, unwrap, grouped, top-k, arithmetic/literal/set binary) " +
+	r.SetRule("inventories of 1..5 containers (distinct timestamps; one container carries Docker label keys a.b / a-b / a/b that sanitise to the same name with different values) x 15 queries (log, pipeline, range, unwrap, grouped, top-k, arithmetic/literal/set binary) " +
 		"x ALL completion orders of the concurrent per-container requests (gated fake client) x repetitions (map-iteration orders): the canonicalised Eval result and, for log queries, the rendered bytes (colour off) must be identical over all runs of one (inventory, query); " +
 		"plus ungated 64-container stress; everything under the Go race detector, any report is a violation. non-trivial = distinct (inventory, query, order) runs with >=2 containers and a non-empty result.")
 	r.Assume("canonical form sorts streams/series by label set and entries by (timestamp, line); rendered output compared only with colour off and distinct timestamps, as the statement says")
@@ -63,6 +65,13 @@ func runC18(r *vk.Run) {
 					// every container carries the label so that each selection covers all n containers
 					// (the gate needs all n requests of a round to arrive)
 					inv[i].Labels = map[string]string{"a.b": "only"}
+				}
+				// label present-but-empty on some containers, absent on others, set on the rest
+				switch i % 3 {
+				case 0:
+					inv[i].Labels["tier"] = ""
+				case 1:
+					inv[i].Labels["tier"] = "front"
 				}
 			}
 			perms := permutations(n)
